@@ -155,6 +155,9 @@ func (sig *Signature[S]) UnmarshalCBOR(data []byte) error {
 	if dto == nil {
 		return signatures.ErrInvalidArgument.WithMessage("Signature data is nil")
 	}
+	if utils.IsNil(dto.R) || utils.IsNil(dto.S) {
+		return signatures.ErrInvalidArgument.WithMessage("r/s is missing")
+	}
 	sig2, err := NewSignature(dto.R, dto.S, dto.V)
 	if err != nil {
 		return errs.Wrap(err).WithMessage("failed to create ECDSA signature from deserialized data")
